@@ -92,6 +92,16 @@ type Iter struct {
 	IsStr bool
 }
 
+// RatFloat is a floating-point value known to be exactly I/Den for a (possibly symbolic)
+// signed 64-bit integer I with |I| <= 2^53 and a positive concrete Den. It arises from
+// int->float conversions of symbolic integers and supports only what the code under test
+// does with such values: conversion back to an integer (Den == 1) and ordering against
+// concrete floats.
+type RatFloat struct {
+	I   *Term
+	Den int64
+}
+
 // Host is an opaque object owned by a host-side model.
 type Host struct {
 	Kind string
